@@ -16,7 +16,7 @@ HOOK_COMMITS = ["verif: scheduling/trace hook points in the ListObjects pipeline
 
 CHECKS = {
     "C01": {
-        "runs": [_r("TestC01", 4000, 240000)],
+        "runs": [_r("TestC01", 20000, 240000)],
         "rule": "rapid draws a model (shared generator G: 1-3 object types, tupleset/TTU, usersets, wildcards, "
                 "conditions, union/intersection/exclusion, stratification-repaired), valid + left-over tuples and 4-10 "
                 "Check requests (object/wildcard/userset subjects, contexts that satisfy/falsify/omit/mistype parameters, "
@@ -30,7 +30,7 @@ CHECKS = {
                         "memory datastore, default engine, caches off"],
     },
     "C02": {
-        "runs": [_r("TestC02", 800, 60000, qt=1500, tt=5000)],
+        "runs": [_r("TestC02", 5000, 60000, qt=1500, tt=5000)],
         "rule": "rapid draws a world (generator G), 2-5 Check requests, 1-2 ListObjects requests and 2-4 configurations: deterministic "
                 "planner policy (always default / prefer weight2 / prefer recursive / per-key bits / alternate), breadth limit {1,2,3,10,100}, "
                 "read concurrency {1,2,1000}, dispatch throttling (threshold 1-5, 1us-1ms), datastore throttling, ListObjects engine "
@@ -45,7 +45,7 @@ CHECKS = {
                         "an error caused by an unevaluable condition is not counted as a different answer (see DESIGN.md C01/C02)"],
     },
     "C03": {
-        "runs": [_r("TestC03", 1500, 100000)],
+        "runs": [_r("TestC03", 8000, 100000)],
         "rule": "rapid draws a world (generator G) and 4-10 Check requests (object, wildcard and userset subjects, contexts, contextual tuples); each "
                 "request goes through Server.Check with the weighted_graph_check flag (capturing logger; real adaptive planner, fall-back enabled) and "
                 "through the default engine on the same store. Object subjects: the returned decision must satisfy the reference semantics. Userset / "
@@ -58,7 +58,7 @@ CHECKS = {
         "assumptions": ["R-sem is the specification for object subjects", "the server-level fall-back is enabled as in production"],
     },
     "C04": {
-        "runs": [_r("TestC04", 1000, 50000, qt=1500, tt=5000)],
+        "runs": [_r("TestC04", 4000, 50000, qt=1500, tt=5000)],
         "rule": "rapid draws a world (generator G), a split of its valid tuples into stored S and contextual X (<= 20), Check requests, a ListObjects "
                 "request, a ListUsers request and an Expand request. Metamorphic oracle: every query on (store=S, contextual=X) answers like the same "
                 "query on (store=S+X, no contextual tuples): Check (default engine behind query+iterator caches, weighted engine), BatchCheck, ListObjects "
@@ -71,7 +71,7 @@ CHECKS = {
                         "keys of contextual tuples are disjoint from stored ones"],
     },
     "C07": {
-        "runs": [_r("TestC07", 600, 40000, qt=1500, tt=5000)],
+        "runs": [_r("TestC07", 5000, 40000, qt=1500, tt=5000)],
         "rule": "rapid draws a world (generator G) and a batch of 1-14 (thorough 1-50) items built from 1-4 base requests and near-duplicates: other "
                 "context, other contextual tuples, reversed contextual tuples (semantically equal), no context, or a contextual tuple that grants the request. "
                 "The batch runs on a cache-free and on a query-caching server. Oracle per correlation id: outcome satisfies the reference semantics and "
@@ -82,7 +82,7 @@ CHECKS = {
         "assumptions": ["R-sem is the specification"],
     },
     "C08": {
-        "runs": [_r("TestC08", 300, 20000, race=True, qt=1500, tt=6000)],
+        "runs": [_r("TestC08", 3000, 20000, race=True, qt=1500, tt=6000)],
         "rule": "rapid draws a world (generator G), a configuration (query cache on; engine default or weighted; breadth limit 1/2/10) and a history of "
                 "4-14 operations against the unchanged store on a fresh server: Check (sometimes a burst of 6 concurrent copies), BatchCheck, ListObjects, "
                 "with contexts, contextual tuples and requests derived from earlier ones (same request again, same subject/other object, same object/other "
@@ -94,7 +94,7 @@ CHECKS = {
         "assumptions": ["R-sem is the specification (= the uncached answer, see C01)", "fresh server per case: caches start empty"],
     },
     "C09": {
-        "runs": [_r("TestC09", 250, 15000, race=True, qt=1500, tt=6000)],
+        "runs": [_r("TestC09", 3000, 15000, race=True, qt=1500, tt=6000)],
         "rule": "rapid draws a world, a configuration (check + list-objects iterator caches and shared iterators on, maxResults 2/5/1000, query cache drawn, "
                 "engine drawn) and a history of Check/ListObjects steps on a fresh server over a fault datastore placed below every cache layer. A faulted "
                 "step arms the datastore: at the n-th (1-6) tuple-iterator Next after arming the request's context is cancelled and, optionally, that Next "
@@ -107,7 +107,7 @@ CHECKS = {
                         "R-sem is the specification"],
     },
     "C10": {
-        "runs": [_r("TestC10", 300, 20000, qt=1500, tt=6000)],
+        "runs": [_r("TestC10", 3000, 20000, qt=1500, tt=6000)],
         "rule": "rapid draws a world, every cache flag (query, check-iterator, list-objects-iterator, shared iterator, controller) and the engine, and 2-5 "
                 "rounds of: cached Check (and ListObjects) to populate caches, a Write/Delete chosen to flip the answer (grant the request directly or delete "
                 "the granting tuple), the same request cached (unjudged: may be stale by design) and with HIGHER_CONSISTENCY through Check, BatchCheck and "
@@ -118,7 +118,7 @@ CHECKS = {
         "assumptions": ["ListUsers has no cache path and is covered by C06"],
     },
     "C16": {
-        "runs": [_r("TestC16", 300, 15000, qt=1500, tt=5000)],
+        "runs": [_r("TestC16", 2000, 15000, qt=1500, tt=5000)],
         "rule": "three stores share one model with the SAME model id (planted through the datastore) and the same type/relation/object/user names but hold "
                 "different generated tuple sets; a fresh server with every cache on (engine drawn); the same 3-8 Check requests, a ListObjects and a "
                 "ListUsers request are issued against all stores in drawn interleavings; Read and ReadChanges per store; DeleteStore of a drawn store at "
@@ -131,7 +131,7 @@ CHECKS = {
                         "memory datastore (sqlite isolation is covered by C13/C31 store-id sharing)"],
     },
     "C20": {
-        "runs": [_r("TestC20", 300, 10000, race=True, qt=1800, tt=7000)],
+        "runs": [_r("TestC20", 600, 10000, race=True, qt=1800, tt=7000)],
         "rule": "case = model family (recursive userset / recursive TTU / mutually recursive types under an exclusion), chain length 3-40 optionally closed "
                 "into a cycle, fan-out 0-300, Check engine (default/weighted), ListObjects engine (classic/weighted/pipeline), deadline 2-300 ms, caches on in "
                 "1/4 of the cases, and 2-6 calls over Check, BatchCheck, ListObjects, StreamedListObjects, ListUsers, Expand, half of them cancelled by the "
@@ -145,7 +145,7 @@ CHECKS = {
                         "goroutine census counts stacks with github.com/openfga/openfga frames; process-wide servers form the baseline"],
     },
     "C21": {
-        "runs": [_r("TestC21", 1500, 60000, race=True, qt=1800, tt=7000)],
+        "runs": [_r("TestC21", 8000, 60000, race=True, qt=1800, tt=7000)],
         "rule": "case = cyclic model family (self-recursive userset, two- and three-type userset rings, recursive TTU, userset+TTU mix, computed relation "
                 "inside the cycle; optionally an intersection/exclusion on top of the cycle), generated tuples over 5 (thorough 8) ids per type, a user, "
                 "pipeline tuning (chunk 1/2/3/100, buffer 1/2/4/128, numProcs 1-4, read concurrency), GOMAXPROCS in {1,2,4,16} and schedule bytes that choose "
@@ -162,7 +162,7 @@ CHECKS = {
                         "schedules are perturbed, not owned: the protocol-level exhaustive tier described in DESIGN.md was not built"],
     },
     "C11": {
-        "runs": [_r("TestC11", 200, 6000, qs=8, qt=1800, tt=7000)],
+        "runs": [_r("TestC11", 1200, 6000, qs=8, qt=1800, tt=7000)],
         "rule": "server with the cache controller (minimum interval 0) and exactly one of {query cache, iterator caches (TTL 1h or 150 ms)}, engine drawn; "
                 "1-4 rounds of: cached Check (+ListObjects) to populate, optionally a sleep past the iterator TTL, a write/delete chosen to flip the answer "
                 "(sometimes plus a bulk write of 60 tuples = more than one changelog page), await until invalidation runs that read the write have "
